@@ -19,6 +19,9 @@ func (c *Client) send(pkt pkts.Packet) error {
 	if err != nil {
 		return err
 	}
+	if len(buf) > pkts1.MaxPacketLen {
+		return fmt.Errorf("packet too long: %d bytes (maximum %d)", len(buf), pkts1.MaxPacketLen)
+	}
 	_, err = c.conn.Write(buf)
 	if err != nil {
 		return err
